@@ -49,6 +49,14 @@ pub fn awkward() -> Vec<Entry> {
         mk("all-massive-triangle", &[(0, 1, t, 1, 1), (1, 2, t, 1, 1), (2, 0, t, 1, 1)], &[0, 1], &[3, 5]),
         mk("parallel-self-loops", &[(5, 5, f, 1, 1), (5, 5, t, 1, 1), (5, 6, f, 1, 1)], &[5, 6], &[2, 3]),
         mk("weights-near-zero-dod", &[(0, 1, f, 1, 1), (0, 1, f, 1, 1)], &[0, 1], &[4]),
+        mk("triangle-externals-descending", &[(0, 1, f, 2, 3), (1, 2, f, 2, 3), (2, 0, f, 2, 3)], &[2, 0], &[3]),
+        mk("triangle-externals-duplicate", &[(0, 1, f, 2, 3), (1, 2, t, 2, 3), (2, 0, f, 2, 3)], &[1, 0, 1], &[3]),
+        mk("box-externals-shuffled", &[(0, 1, f, 3, 4), (1, 2, f, 3, 4), (2, 3, t, 3, 4), (3, 0, f, 3, 4)], &[3, 1, 0, 2], &[3, 2]),
+        mk("vacuum-box-labels-0-1-128-2", &[(0, 1, f, 2, 5), (1, 128, f, 2, 5), (128, 2, f, 2, 5), (2, 0, f, 2, 5)], &[], &[3]),
+        mk("triangle-labels-1-5-133", &[(1, 5, f, 7, 10), (5, 133, f, 3, 2), (133, 1, f, 1, 2)], &[5], &[4, 3]),
+        mk("triangle-labels-0-1-128", &[(0, 1, f, 2, 3), (1, 128, f, 2, 3), (128, 0, f, 2, 3)], &[0, 1, 128], &[3]),
+        mk("bubble-chain-labels-5-133", &[(5, 133, f, 1, 1), (5, 133, f, 1, 1), (133, 7, f, 1, 1), (133, 7, t, 1, 1)], &[5, 7], &[3]),
+        mk("triangle-labels-72-200-255", &[(72, 200, f, 1, 1), (200, 255, t, 1, 1), (255, 72, f, 1, 1)], &[72, 255], &[3, 4]),
     ]
 }
 
